@@ -76,6 +76,7 @@ def testbench_findings(drv):
         used = {t for i, t in enumerate(toks) if GENERATED_NAME.match(t) and not (i > 0 and toks[i - 1] == ".")}
         examples = [f for f in sorted(glob.glob(os.path.join(REPO, "floogen", "examples", "*.yml")))
                     if impl.load_yaml(f).get("name") == name]
+        per_example = {}
         if not examples:
             out.append({"claim": "tb-no-example", "site": os.path.basename(tb), "detail": f"no shipped example is named {name}"})
         for ex in examples:
@@ -90,6 +91,7 @@ def testbench_findings(drv):
                 raise RuntimeError(res["error"])
             ports = {x["name"]: x["dir"] for x in res["ports"]}
             decls = set(res["decls"]) | set(res["flooPkg"])
+            per_example[os.path.basename(ex)] = set(res["decls"])
             checked += 1
             for b in bound:
                 if b not in ports:
@@ -103,4 +105,12 @@ def testbench_findings(drv):
                 if u not in decls:
                     out.append({"claim": "tb-package-name", "site": f"{os.path.basename(tb)}:{u}",
                                 "detail": f"{u} is not declared by the package emitted for {os.path.basename(ex)}"})
+        # a name some variant's package declares must be declared by every variant the testbench is built against
+        if len(per_example) > 1:
+            union = set().union(*per_example.values())
+            ids = {t for i, t in enumerate(toks) if t in union and not (i > 0 and toks[i - 1] == ".")}
+            for exn, dset in per_example.items():
+                for u in sorted(ids - dset):
+                    out.append({"claim": "tb-package-name", "site": f"{os.path.basename(tb)}:{u}",
+                                "detail": f"{u} is declared only by some of the packages named floo_{name}_noc_pkg, not by the one emitted for {exn}"})
     return out, checked
